@@ -58,6 +58,58 @@ type Opts struct {
 type Result struct {
 	Reached map[ssa.Instruction]bool
 	Stopped map[ssa.Instruction]bool
+	// RetVals: for a reached Return whose first result is (a negation chain over) a bool phi of its own block —
+	// the `return !found` an inlined helper leaves behind — the constant returned along each way the block was
+	// entered (nil entry: not a constant / entry edge unknown).
+	RetVals map[*ssa.Return][]constant.Value
+}
+
+// BoolReturn: the boolean constants a reached return can yield on the explored paths; ok=false if some path
+// returns a non-constant.
+func (r Result) BoolReturn(ret *ssa.Return) (vals []bool, ok bool) {
+	if len(ret.Results) == 0 {
+		return nil, false
+	}
+	if c, isC := ret.Results[0].(*ssa.Const); isC && c.Value != nil && c.Value.Kind() == constant.Bool {
+		return []bool{constant.BoolVal(c.Value)}, true
+	}
+	vs, has := r.RetVals[ret]
+	if !has || len(vs) == 0 {
+		return nil, false
+	}
+	for _, v := range vs {
+		if v == nil {
+			return nil, false
+		}
+		vals = append(vals, constant.BoolVal(v))
+	}
+	return vals, true
+}
+
+// retPhi: block b ends in a Return whose first result is a negation chain over a bool phi of b.
+func retPhi(b *ssa.BasicBlock) (*ssa.Return, *ssa.Phi, bool, bool) {
+	if len(b.Instrs) == 0 {
+		return nil, nil, false, false
+	}
+	ret, ok := b.Instrs[len(b.Instrs)-1].(*ssa.Return)
+	if !ok || len(ret.Results) == 0 {
+		return nil, nil, false, false
+	}
+	neg := false
+	v := ret.Results[0]
+	for {
+		if u, isU := v.(*ssa.UnOp); isU && u.Op == token.NOT {
+			neg = !neg
+			v = u.X
+			continue
+		}
+		break
+	}
+	ph, isPhi := v.(*ssa.Phi)
+	if !isPhi || ph.Block() != b {
+		return nil, nil, false, false
+	}
+	return ret, ph, neg, true
 }
 
 // threadable: block b ends in an If whose condition is decided by a phi of b itself: a negation chain over a
@@ -181,7 +233,7 @@ func threadedSucc(b, from *ssa.BasicBlock) int {
 
 // Reach computes the instructions reachable from the start points.
 func Reach(starts []Pt, o Opts) Result {
-	res := Result{Reached: map[ssa.Instruction]bool{}, Stopped: map[ssa.Instruction]bool{}}
+	res := Result{Reached: map[ssa.Instruction]bool{}, Stopped: map[ssa.Instruction]bool{}, RetVals: map[*ssa.Return][]constant.Value{}}
 	type key struct {
 		b    *ssa.BasicBlock
 		i    int
@@ -198,7 +250,9 @@ func Reach(starts []Pt, o Opts) Result {
 			return
 		}
 		if _, _, th := threadable(p.B); !th || p.I != 0 {
-			from = nil
+			if _, _, _, rp := retPhi(p.B); !rp || p.I != 0 {
+				from = nil
+			}
 		}
 		k := key{p.B, p.I, from}
 		if !seen[k] {
@@ -231,6 +285,21 @@ func Reach(starts []Pt, o Opts) Result {
 				break
 			}
 			res.Reached[in] = true
+			if ret, isRet := in.(*ssa.Return); isRet {
+				if r2, ph, neg, ok := retPhi(b); ok && r2 == ret {
+					var cv constant.Value
+					if p.I == 0 && it.from != nil {
+						for k, pr := range b.Preds {
+							if pr == it.from {
+								if c, isC := ph.Edges[k].(*ssa.Const); isC && c.Value != nil && c.Value.Kind() == constant.Bool {
+									cv = constant.MakeBool(constant.BoolVal(c.Value) != neg)
+								}
+							}
+						}
+					}
+					res.RetVals[ret] = append(res.RetVals[ret], cv)
+				}
+			}
 			if !o.KeepNoReturn {
 				if c, ok := in.(*ssa.Call); ok && NeverReturns(c.Common().StaticCallee()) {
 					stopped = true
